@@ -178,6 +178,58 @@ def _benign_patch_job(args):
         shutil.rmtree(d, ignore_errors=True)
 
 
+def _apply_patch(d, pfile):
+    import subprocess
+    r = subprocess.run(['git', 'apply', '--unsafe-paths', '--directory=' + d, pfile], cwd=d, capture_output=True, text=True)
+    if r.returncode != 0:
+        r = subprocess.run(['patch', '-p1', '-s', '-f', '-i', pfile], cwd=d, capture_output=True, text=True)
+    return r.returncode == 0
+
+
+def _cross_job(args):
+    """refactored, then broken: an agent-written refactoring of this property's anchors is applied first, then a mutant / a seeded
+    defect (where it still applies to the refactored text): the defect must still be reported (detection on reshaped code)"""
+    pid, bdir, kind, item, base_keys, src_repo = args
+    d = tempfile.mkdtemp(prefix='vsa_x_')
+    name = '%s+%s' % (os.path.basename(bdir), item['name'] if kind == 'mutant' else os.path.basename(item))
+    try:
+        copy_py_tree(src_repo, d)
+        if not _apply_patch(d, os.path.join(bdir, 'patch.diff')):
+            return {'name': name, 'status': 'n/a', 'why': 'refactoring does not apply'}
+        if kind == 'mutant':
+            m = item
+            path = os.path.join(d, m['file'])
+            with open(path, encoding='utf-8') as fh:
+                s = fh.read()
+            s2, n = re.subn(m['pat'], m['rep'], s, count=1, flags=re.S if m.get('dotall') else 0)
+            if n == 0:
+                return {'name': name, 'status': 'n/a', 'why': 'mutant pattern not in the refactored text'}
+            try:
+                compile(s2, path, 'exec')
+            except SyntaxError:
+                return {'name': name, 'status': 'n/a', 'why': 'does not compile'}
+            with open(path, 'w', encoding='utf-8') as fh:
+                fh.write(s2)
+        else:
+            meta = json.load(open(os.path.join(item, 'meta.json')))
+            if meta.get('expect') == 'silent' or not _apply_patch(d, os.path.join(item, 'patch.diff')):
+                return {'name': name, 'status': 'n/a', 'why': 'seed does not apply to the refactored text'}
+            for dp, dn, fn in os.walk(os.path.join(d, PKG)):
+                for f in fn:
+                    if f.endswith('.rej') or f.endswith('.orig'):
+                        return {'name': name, 'status': 'n/a', 'why': 'seed applies only partially'}
+        with contextlib.redirect_stdout(io.StringIO()):
+            res = run_rules(pid, d)
+        new = [k for k in res['keys'] if k not in base_keys]
+        if new or res['error'] or res['floor']:
+            return {'name': name, 'status': 'reported', 'finding': (new or [res['error'] or res['floor']])[:1]}
+        return {'name': name, 'status': 'MISSED'}
+    except Exception as e:       # pragma: no cover
+        return {'name': name, 'status': 'n/a', 'why': repr(e)}
+    finally:
+        shutil.rmtree(d, ignore_errors=True)
+
+
 def benign_patches():
     from . import VERIF
     root = os.path.join(VERIF, 'benign')
@@ -295,6 +347,10 @@ def run_for(pid, seed=0, repo=None, workers=None, variants=('unparse', 'unparse+
         fs = list(ex.map(_seeded_job, sjobs))
         fh = list(ex.map(_history_job, hjobs))
         fp = list(ex.map(_benign_patch_job, [(pid, bd, base_keys, repo) for bd in benign_patches()]))
+        own = [bd for bd in benign_patches() if os.path.basename(bd).startswith(pid + '-')]
+        xjobs = [(pid, bd, 'mutant', m, base_keys, repo) for bd in own for m in muts] + \
+                [(pid, bd, 'seed', sd, base_keys, repo) for bd in own for sd in seeded_for(pid)]
+        fx = list(ex.map(_cross_job, xjobs))
     results, benign = fm, fb
     killed = [r for r in results if r['status'].startswith('killed')]
     survived = [r for r in results if r['status'] == 'SURVIVED']
@@ -307,6 +363,9 @@ def run_for(pid, seed=0, repo=None, workers=None, variants=('unparse', 'unparse+
         'seeded_total': len(fs), 'seeded_detected': sum(1 for x in fs if x['status'] in ('detected', 'silent-as-expected')), 'seeded_details': fs,
         'mutant_details': results,
         'refactorings_total': len(fp), 'refactorings_silent': sum(1 for x in fp if x['status'] == 'silent'), 'refactoring_details': [x for x in fp if x['status'] != 'silent'],
+        'refactored_then_broken_applicable': sum(1 for x in fx if x['status'] != 'n/a'),
+        'refactored_then_broken_reported': sum(1 for x in fx if x['status'] == 'reported'),
+        'refactored_then_broken_missed': [x['name'] for x in fx if x['status'] == 'MISSED'],
         'history_total': len(fh), 'history_reported': sum(1 for x in fh if x['status'] == 'reported'), 'history_details': fh,
     }
     print('selftest %s: %d/%d mutants killed, %d survived %s, %d skipped; benign variants silent %d/%d'
@@ -315,6 +374,9 @@ def run_for(pid, seed=0, repo=None, workers=None, variants=('unparse', 'unparse+
         print('  seeded defects attributed to %s: %d/%d detected %s' % (pid, out['seeded_detected'], len(fs), [x['seed'] + ':' + x['status'] for x in fs if x['status'] != 'detected']))
     if fp:
         print('  agent-written refactorings: silent on %d/%d %s' % (out['refactorings_silent'], len(fp), [x['patch'] + ':' + x['status'] for x in fp if x['status'] != 'silent']))
+    if fx:
+        print('  refactored-then-broken (own refactorings x mutants/seeds that still apply): %d/%d reported %s' % (
+            out['refactored_then_broken_reported'], out['refactored_then_broken_applicable'], out['refactored_then_broken_missed']))
     if fh:
         print('  repaired defects of %s re-detected on the tree before their repair: %d/%d %s' % (
             pid, out['history_reported'], len(fh), [x['commit'] + ':' + x['status'] for x in fh if x['status'] != 'reported']))
